@@ -1378,4 +1378,201 @@ Proof.
   - intros i v H. eapply nth_error_lt. apply (T2 _ _ H).
   - intros i w H. eapply nth_error_lt. apply (T3 _ _ H).
 Qed.
+
+(* ---- split_in_extension on the dynamic framework covers every live argument (what D9 violated):
+   whatever the ids look like (sparse, above the live count), the literal of each live argument
+   lands on the side its membership in the current set dictates *)
+Lemma tbl_vars_In t ids : forall vs id,
+  tbl_vars t ids = Some vs -> In id ids -> exists v, tbl_var t id = Some v /\ In v vs.
+Proof.
+  induction ids as [|i r IH]; intros vs id H Hin; [destruct Hin|]. cbn [tbl_vars] in H.
+  destruct (tbl_var t i) as [v|] eqn:Ev; [|discriminate].
+  destruct (tbl_vars t r) as [l|] eqn:El; [|discriminate]. injection H as <-.
+  destruct Hin as [<-|Hin].
+  - exists v. split; [assumption|left; reflexivity].
+  - destruct (IH l id eq_refl Hin) as (w & Hw & Hin'). exists w. split; [assumption|right; assumption].
+Qed.
+
+Theorem dyn_split_covers (af : fw) e cur ins outs id v :
+  dyn_split L af e cur = Some (ins, outs) ->
+  has_argument_with_id L af id = true -> tbl_var (e_a2v e) id = Some v ->
+  (memb id cur = true /\ In (zlit v) ins) \/ (memb id cur = false /\ In (zlit v) outs).
+Proof.
+  unfold dyn_split. intros H Hlive Hv.
+  set (n_ids := match max_argument_id L af with Some m => S m | None => 0 end) in H.
+  set (size := fold_left (fun acc a => Nat.max acc (S a)) cur (Nat.max (n_arguments L af) n_ids)) in H.
+  assert (Hsz : forall l acc, acc <= fold_left (fun acc a => Nat.max acc (S a)) l acc).
+  { induction l as [|x r IH]; intros acc; cbn [fold_left]; [lia|]. specialize (IH (Nat.max acc (S x))). lia. }
+  assert (Hid : id < size).
+  { apply has_arg_nth in Hlive.
+    assert (id < length (slots (ls af))).
+    { destruct (Nat.lt_ge_cases id (length (slots (ls af)))); [assumption|].
+      rewrite nth_overflow in Hlive by assumption. congruence. }
+    assert (length (slots (ls af)) <= n_ids).
+    { unfold n_ids, max_argument_id, ls_max_id. destruct (slots (ls af)); cbn [length]; lia. }
+    pose proof (Hsz cur (Nat.max (n_arguments L af) n_ids)). unfold size. lia. }
+  assert (Hin : In id (filter (has_argument_with_id L af) (seq 0 size))).
+  { apply filter_In. split; [apply in_seq; lia|exact Hlive]. }
+  destruct (tbl_vars (e_a2v e) (filter (fun i => memb i cur) _)) as [iv|] eqn:Ei; [|discriminate].
+  destruct (tbl_vars (e_a2v e) (filter (fun i => negb (memb i cur)) _)) as [ov|] eqn:Eo; [|discriminate].
+  injection H as <- <-.
+  destruct (memb id cur) eqn:Em.
+  - left. split; [reflexivity|].
+    destruct (tbl_vars_In _ _ _ id Ei) as (w & Hw & Hin'); [apply filter_In; auto|].
+    rewrite Hv in Hw. injection Hw as <-. apply in_map. exact Hin'.
+  - right. split; [reflexivity|].
+    destruct (tbl_vars_In _ _ _ id Eo) as (w & Hw & Hin'); [apply filter_In; rewrite Em; auto|].
+    rewrite Hv in Hw. injection Hw as <-. apply in_map. exact Hin'.
+Qed.
+
+(* ---- variable 0 is never handed out: entry 0 of solver_vars stays Ignored *)
+Definition vz (e : denc) : Prop := nth_error (e_vars e) 0 = Some VIgnored.
+
+Lemma vz_set_ign (vars : list vtype) i :
+  nth_error vars 0 = Some VIgnored -> nth_error (set_nth i VIgnored vars) 0 = Some VIgnored.
+Proof. destruct vars as [|x r]; [discriminate|]. destruct i; cbn [set_nth nth_error]; auto. Qed.
+
+Lemma vz_allocated vars t r :
+  nth_error vars 0 = Some VIgnored -> allocated vars t r -> nth_error (fst r) 0 = Some VIgnored /\ 0 < snd r.
+Proof.
+  intros H (A1 & A2 & A3 & A4). pose proof (nth_error_lt _ _ _ H) as Hl. split; [rewrite A3; assumption|lia].
+Qed.
+
+Lemma remove_selector_vz e s : vz e -> okm (remove_selector e s) vz.
+Proof.
+  intros H. eapply okm_weaken; [apply remove_selector_spec|]. intros e' (p & _ & ->).
+  unfold vz, enc_with. cbn [e_vars]. apply vz_set_ign. exact H.
+Qed.
+
+Lemma update_attacks_to_vz af e id : vz e -> okm (update_attacks_to L af e id) vz.
+Proof.
+  intros H. unfold update_attacks_to. destruct (negb (e_upd e)); [apply okm_ret; exact H|].
+  destruct (nth_error (e_a2s e) id) as [os|]; [|apply okm_panic].
+  apply (okm_bind _ _ vz).
+  { destruct os as [s|]; [|apply okm_ret; exact H].
+    eapply okm_bind; [apply remove_selector_vz; exact H|]. intros e' He'. apply okm_ret. exact He'. }
+  intros e1 H1. eapply okm_bind; [apply new_solver_var_spec|]. intros [vars sv] Ha.
+  destruct (vz_allocated _ _ _ H1 Ha) as [Hz _]. cbn [fst snd] in *.
+  destruct (negb _); [apply okm_panic|].
+  match goal with |- okm (match ?x with _ => _ end) _ => destruct x end; [|apply okm_panic].
+  match goal with |- okm (match ?x with _ => _ end) _ => destruct x end; [|apply okm_panic].
+  apply okm_bind_any. intros _. apply okm_ret. exact Hz.
+Qed.
+
+Lemma fold_update_attacks_to_vz af ids : forall e, vz e -> okm (fold_m (update_attacks_to L af) ids e) vz.
+Proof. intros e He. apply okm_fold_m; [|exact He]. intros a x Ha. apply update_attacks_to_vz. exact Ha. Qed.
+
+Lemma alloc_arg_vars_vz sm vars id :
+  nth_error vars 0 = Some VIgnored ->
+  okm (alloc_arg_vars sm vars id) (fun r => nth_error (fst r) 0 = Some VIgnored /\ 0 < snd r).
+Proof.
+  intros H. unfold alloc_arg_vars. eapply okm_bind; [apply new_solver_var_spec|]. intros r1 Ha1.
+  destruct (vz_allocated _ _ _ H Ha1) as [Hz1 Hp1].
+  destruct sm; try (apply okm_ret; auto).
+  all: eapply okm_bind; [apply new_solver_var_spec|]; intros r2 Ha2;
+    destruct (vz_allocated _ _ _ Hz1 Ha2) as [Hz2 _]; apply okm_bind_any; intros _; apply okm_ret; cbn [fst snd]; auto.
+Qed.
+
+Definition vz2 (r : fw * denc) : Prop := vz (snd r).
+Definition vz3 (r : fw * denc * result) : Prop := vz (snd (fst r)).
+
+Lemma enc_new_argument_vz af e l : vz e -> okm (enc_new_argument L leqb af e l) vz2.
+Proof.
+  intros H. unfold enc_new_argument. destruct (get_argument af l); [apply okm_ret; exact H|].
+  destruct (max_argument_id L _); [|apply okm_panic].
+  eapply okm_bind; [apply alloc_arg_vars_vz; exact H|]. intros r [Hz _].
+  eapply okm_bind; [apply update_attacks_to_vz; exact Hz|]. intros e4 H4. apply okm_ret. exact H4.
+Qed.
+
+Lemma enc_remove_argument_vz af e l : vz e -> okm (enc_remove_argument L leqb af e l) vz3.
+Proof.
+  intros H. unfold enc_remove_argument. destruct (get_argument af l); [|apply okm_ret; exact H].
+  destruct (Store.remove_argument L leqb af l) as [af' [| |]]; try (apply okm_ret; exact H).
+  destruct (tbl_var _ _); [|apply okm_panic].
+  apply (okm_bind _ _ vz).
+  { match goal with |- okm (match ?x with _ => _ end) _ => destruct x as [[s|]|] end;
+      [|apply okm_ret; exact H|apply okm_panic].
+    eapply okm_bind; [apply remove_selector_vz; exact H|]. intros e' He'. apply okm_ret. exact He'. }
+  intros e2 H2. destruct (Nat.ltb _ _); [|apply okm_panic]. apply okm_bind_any. intros _.
+  eapply okm_bind; [apply fold_update_attacks_to_vz|].
+  - unfold vz, enc_with. cbn [e_vars]. apply vz_set_ign. exact H2.
+  - intros e4 H4. apply okm_ret. exact H4.
+Qed.
+
+Lemma enc_new_attack_vz af e a b : vz e -> okm (enc_new_attack L leqb af e a b) vz3.
+Proof.
+  intros H. unfold enc_new_attack. destruct (Store.new_attack L leqb af a b) as [af' [| |]].
+  - destruct (get_argument af' b); [|apply okm_panic].
+    eapply okm_bind; [apply update_attacks_to_vz; exact H|]. intros e' He'. apply okm_ret. exact He'.
+  - apply okm_ret. exact H.
+  - apply okm_panic.
+Qed.
+Lemma enc_remove_attack_vz af e a b : vz e -> okm (enc_remove_attack L leqb af e a b) vz3.
+Proof.
+  intros H. unfold enc_remove_attack. destruct (Store.remove_attack L leqb af a b) as [af' [| |]].
+  - destruct (get_argument af' b); [|apply okm_panic].
+    eapply okm_bind; [apply update_attacks_to_vz; exact H|]. intros e' He'. apply okm_ret. exact He'.
+  - apply okm_ret. exact H.
+  - apply okm_panic.
+Qed.
+
+Lemma fold_std_replay_vz evs : forall af e upd,
+  vz e -> okm (fold_m (std_replay L leqb) evs (af, e, upd)) (fun st => vz (snd (fst st))).
+Proof.
+  induction evs as [|ev r IH]; intros af e upd H; cbn [fold_m]; [apply okm_ret; exact H|].
+  apply (okm_bind _ _ (fun st => vz (snd (fst st)))).
+  - unfold std_replay. destruct ev as [l|l|a b|a b|x y z|x y z]; try (apply okm_ret; exact H).
+    + eapply okm_bind; [apply enc_new_argument_vz; exact H|]. intros r0 Hr.
+      apply okm_bind_any. intros id. apply okm_ret. exact Hr.
+    + apply okm_bind_any. intros arg_id.
+      eapply okm_bind; [apply enc_remove_argument_vz; exact H|]. intros r0 Hr.
+      apply okm_unwrap_ok'. intros p Hp. apply okm_ret. subst r0. exact Hr.
+    + eapply okm_bind; [apply enc_new_attack_vz; exact H|]. intros r0 Hr.
+      apply okm_unwrap_ok'. intros p Hp. apply okm_bind_any. intros id. apply okm_ret. subst r0. exact Hr.
+    + eapply okm_bind; [apply enc_remove_attack_vz; exact H|]. intros r0 Hr.
+      apply okm_unwrap_ok'. intros p Hp. apply okm_bind_any. intros id. apply okm_ret. subst r0. exact Hr.
+  - intros [[af1 e1] upd1] H1. apply IH. exact H1.
+Qed.
+
+Definition vz_buf (b : dbuf) : Prop := match b_enc L b with XStd e => vz e | XAtt _ => True end.
+
+Lemma update_encoding_vz af b : vz_buf b -> okm (update_encoding L leqb af b) (fun r => vz_buf (snd r)).
+Proof.
+  unfold vz_buf, update_encoding. destruct (b_enc L b) as [e|e].
+  - intros H. eapply okm_bind; [apply fold_std_replay_vz; exact H|]. intros [[af' e'] upd] H1. cbn [fst snd] in H1.
+    eapply okm_bind; [apply fold_update_attacks_to_vz; exact H1|]. intros e'' H2. apply okm_ret.
+    cbn [snd buf_with b_enc]. exact H2.
+  - intros _. apply okm_bind_any. intros st. apply okm_bind_any. intros e'. apply okm_ret.
+    cbn [snd buf_with b_enc]. exact I.
+Qed.
+
+Lemma vz_reach k s os : reach k s os -> vz_buf (s_buf L s).
+Proof.
+  induction 1 as [ps ps' s Hn|s os o Hr IH|s os oracle thr fuel q cert l ps ps' s' a Hr IH Hq].
+  - unfold dyn_new in Hn. destruct k.
+    1-5: apply bind_Done in Hn; destruct Hn as (u & ps1 & _ & Hn); apply Done_inj in Hn; destruct Hn as [<- _];
+         cbn [s_buf]; unfold vz_buf; cbn [b_enc]; try exact I; reflexivity.
+    apply Done_inj in Hn. destruct Hn as [<- _]. cbn [s_buf]. unfold vz_buf. cbn [b_enc]. reflexivity.
+  - pose proof (buf_update_spec (s_buf L s) o) as Hb. cbv zeta in Hb. destruct Hb as (_ & _ & _ & Hen & _).
+    unfold dyn_update, vz_buf in *.
+    destruct (s_kind L s); try (destruct (buf_update L leqb (s_buf L s) o) as [b r]; cbn [fst snd s_buf] in *; rewrite Hen; exact IH).
+    destruct (step (s_af L s) o). cbn [fst s_buf]. exact IH.
+  - pose proof (dyn_query_shape oracle thr fuel s q cert l _ (update_encoding_vz _ _ IH) _ _ _ Hq) as Hp.
+    unfold pushed in Hp. cbn [fst] in Hp.
+    destruct Hp as [->|(af & buf & ev & Hinv & ->)]; [exact IH|].
+    cbn [s_buf snd] in *. unfold vz_buf, buf_push, buf_with in *. cbn [b_enc]. exact Hinv.
+Qed.
+
+(* every variable in the tables of a reachable standard solver is positive *)
+Theorem std_vars_positive k s os e :
+  reach k s os -> b_enc L (s_buf L s) = XStd e -> not_dummy k ->
+  (forall id v, tbl_var (e_a2v e) id = Some v -> 0 < v) /\
+  (forall id sv, tbl_var (e_a2s e) id = Some sv -> 0 < sv).
+Proof.
+  intros Hr He Hnd. pose proof (vz_reach _ _ _ Hr) as Hz. unfold vz_buf in Hz. rewrite He in Hz.
+  destruct (std_tables_reach _ _ _ _ Hr He Hnd) as [[_ _ T2 _ T3 _ _ _ _] _].
+  split.
+  - intros id v H. destruct v; [|lia]. pose proof (T2 _ _ H) as H'. unfold vz in Hz. congruence.
+  - intros id v H. destruct v; [|lia]. pose proof (T3 _ _ H) as H'. unfold vz in Hz. congruence.
+Qed.
 End DynProofs.
